@@ -18,6 +18,7 @@ import (
 type progCase struct {
 	Files []string `json:"files"`         // Go source text, one entry per file
 	XGo   bool     `json:"xgo,omitempty"` // XGo-builtin configuration
+	Bare  bool     `json:"bare,omitempty"` // no NodeInterpreter, no recorder, no big-number types
 	Note  string   `json:"note,omitempty"`
 }
 
@@ -62,7 +63,7 @@ func runProgram(c *progCase, hooks *runHooks) *progRun {
 		}
 	}
 	pr.Src = oracle.CheckParsed("main", pr.Fset, pr.Files, oracle.Importer())
-	o := drive.Options{Importer: oracle.Importer(), XGo: c.XGo, PkgPath: "main"}
+	o := drive.Options{Importer: oracle.Importer(), XGo: c.XGo, PkgPath: "main", NoInterp: c.Bare}
 	if c.XGo {
 		o.Importer = oracle.NewImporter() // the XGo builtin package is initialised (mutated) on import
 	}
